@@ -1218,7 +1218,7 @@ def _parse_text(body):
 
 def _join_lines(code):
     lines = []
-    for line in code.splitlines():
+    for line in sourceutils.split_lines(code):
         if line.endswith("\\"):
             lines.append(line[:-1].strip())
         else:
